@@ -173,6 +173,8 @@ class Engine(EngineBase):
                 opts["dry_run"] = False
                 if "/" in name:
                     opts["recursive"] = True
+        if opts["exclude"] and rng.random() < 0.25:
+            opts["exclude"] = [opts["exclude"], r"zzz"]  # the API also accepts a list of patterns
         if src_jobs and rng.random() < 0.35:
             opts["selection"] = sorted(rng.sample(sorted(src_jobs), rng.randrange(0, len(src_jobs) + 1)))
         entry = rng.choice(["Project.sync", "Project.sync", "sync_projects", "Job.sync", "sync_jobs"])
@@ -394,7 +396,8 @@ class Run:
         """Reference result: (expected destination model, conflicts list)."""
         sc = self.sc
         o = dict(sc["opts"])
-        o["exclude"] = [o["exclude"]] if o["exclude"] else []
+        o["exclude"] = ([o["exclude"]] if isinstance(o["exclude"], str) else list(o["exclude"])) \
+            if o["exclude"] else []
         conflicts = []
         if sc["entry"] in ("Project.sync", "sync_projects"):
             if o["selection"] is not None:
@@ -458,7 +461,11 @@ class Run:
         # ---- dry run (C15) ---------------------------------------------------------------
         if o["dry_run"]:
             self.probe("dry_run")
-            if snap_d1 != snap_d0:
+            strip = lambda sn: {k: v[:2] for k, v in sn.items()}  # noqa: E731
+            if snap_d1 != snap_d0 and strip(snap_d1) == strip(snap_d0):
+                # a file was rewritten with identical bytes (only its mtime moved): not a change
+                self.probe("dry_run_same_content_rewrite")
+            if strip(snap_d1) != strip(snap_d0):
                 muts = [e for e in seg if e[2] in MUTATING and str(e[3]).startswith("dst/")]
                 self.v("C15", "C15:dry-run:destination-changed",
                        f"dry run changed the destination: {self.sdiff(snap_d0, snap_d1)}; calls {muts[:3]}",
@@ -615,7 +622,7 @@ class Run:
         to the property that speaks about it."""
         sc = self.sc
         o = sc["opts"]
-        patterns = [o["exclude"]] if o["exclude"] else []
+        patterns = ([o["exclude"]] if isinstance(o["exclude"], str) else list(o["exclude"])) if o["exclude"] else []
         sel = None
         if o["selection"] is not None and sc["entry"] in ("Project.sync", "sync_projects"):
             sel = {cid(sc["src"]["jobs"][k]["sp"]) for k in o["selection"]}
